@@ -40,3 +40,6 @@ def run(check):
     from ..rules_visitor import rule_optional_container_truthiness
     check.run_rule('C06.R7', lambda c: rule_optional_container_truthiness(c, 'C06.R7'))
     check.run_rule('C06.R6b', lambda c: rule_star_extraction(c, 'C06.R6'))
+    # a forwarding call that is the object of an attribute access is a forwarding call (shared with C05.R11)
+    from ..rules_visitor import rule_attribute_handler
+    check.run_rule('C06.R10', lambda c: rule_attribute_handler(c, 'C06.R10'))
